@@ -7,6 +7,7 @@
             | (burst n c0 mt)          n times: (req c mt 1) answered at once by (resp itstag mt+1 c), c = c0..c0+n-1
             | (q c mt) | (hand) | (wrote) | (wfail)   the same in single steps (frames waiting in the queue)
             | (cancel c)               the context of call c ends; c returns
+            | (readretry)              the reader's ReadFcall failed with a timeout-class net.Error
             | (fatal) | (ctxdone) | (exit)   reader fatal error / session context ends / loop returns
             | (ret c)                  pending call c returns now (after the transport closed)
             | (late c mt)              a send that starts now
@@ -206,6 +207,7 @@ Definition run_event (pl : bool) (rs : rstate) (e : sexp) : rstate :=
     let '(rs, _) := step_event rs (ECancel c) in
     push_return rs c (call_returns rs c true)
   else if head_is e "fatal" then let '(rs, _) := step_event rs EReadFatal in push rs (ssym "none")
+  else if head_is e "readretry" then let '(rs, _) := step_event rs EReadRetry in push rs (ssym "none")
   else if head_is e "ctxdone" then let '(rs, _) := step_event rs ECtxDone in push rs (ssym "none")
   else if head_is e "exit" then
     let '(rs, outs) := step_event rs EExit in
